@@ -2,6 +2,8 @@ package main
 
 import (
 	"fmt"
+	"go.pennock.tech/tabular"
+	"go.pennock.tech/tabular/texttable"
 	"time"
 
 	"go.pennock.tech/tabular/properties/align"
@@ -15,7 +17,7 @@ func init() {
 		ID:        "C04",
 		Level:     "exploration",
 		Technique: "bounded exhaustive configuration enumeration (every alignment assignment to column 0 and each column; every declared width/height against every text) rendered by the real code and compared slot by slot with a reference renderer transcribed from the statement",
-		Rule: "family alignment: 6 grids (<=3 columns, ragged, multi-line, separators, header or not; column contents giving pad 0,1,2,3) x every assignment of {unset,left,right,centre} to column 0 and each column (4^(1+ncols)) x 3 decorations; " +
+		Rule: "family lifecycle: one table (one item declaring its height, one its width) and one long-lived wrapper, every sequence of <=4 (thorough 5) in-place modifications (items mutated + Update, headers replaced, rows grown, alignment of column 0/1/2 changed), Render and failed RenderTo; family twin-texts: two cells with byte-identical text, one declaring width/height; family alignment: 6 grids (<=3 columns, ragged, multi-line, separators, header or not; column contents giving pad 0,1,2,3) x every assignment of {unset,left,right,centre} to column 0 and each column (4^(1+ncols)) x 3 decorations; " +
 			"family declared-size: items with text in {X, abc, SGR-escaped X, two-line, empty} x declared width {none,-1,0,1,=text,text+3} x declared height {none,-1,0,1,=lines,lines+2} x position {header, body first, body last} x column alignment {unset,right,centre}; " +
 			"non-trivial = any non-default alignment or any declared size; distinct by (grid, alignments)",
 		Assumptions: []string{
@@ -73,6 +75,41 @@ func runC04(x *X) {
 		compareTextTable(x, "C04", tg, dc, tags)
 	})
 
+	ldepth := x.Pick(4, 5)
+	lops := lifeOps(true, false)
+	x.Explore("lifecycle", ExploreOpts{ShardDepth: 2, Bound: fmt.Sprintf("one table (one item declaring height, one declaring width) + one long-lived text wrapper: all sequences of <=%d operations over %d in-place modifications/alignment changes, Render, failed RenderTo", ldepth, len(lops))}, func(c *Chooser) {
+		dc := decors[1]
+		lifecycle(x, c, "C04", ldepth, lops, true, func(t tabular.Table) lifeRenderer {
+			tt := texttable.Wrap(t)
+			dc.Apply(tt)
+			return tt
+		}, func(m *lifeModel, tags []string, out string, err error) {
+			judgeTextTable(x, "C04", m.tgrid(), dc, append(tags, "decoration:"+dc.Name), out, err)
+		})
+	})
+	// twin texts: two cells with byte-identical (long) text, one of which declares its own size
+	twin := []string{"identical-long-text-0123456789", "short", "two\nlines-identical-0123456789"}
+	x.Explore("twin-texts", ExploreOpts{ShardDepth: 2, Bound: "3 texts x declared width {none,1,text+3} x declared height {none,lines+2} on one of two cells holding identical text x order x 3 alignments"}, func(c *Chooser) {
+		text := twin[c.Choose(len(twin))]
+		a := TCell{Text: text}
+		tw, nl := a.width(), len(a.lines())
+		a.DeclW = []*int{nil, ip(1), ip(tw + 3)}[c.Choose(3)]
+		a.DeclH = []*int{nil, ip(nl + 2)}[c.Choose(2)]
+		b := TCell{Text: text}
+		first := c.Bool()
+		al := []interface{}{nil, align.Right, align.Center}[c.Choose(3)]
+		dc := decors[c.Choose(len(decors))]
+		tg := &TGrid{HasHeader: true, Header: []TCell{{Text: "h1"}, {Text: "a much wider header than any cell below it"}}, Aligns: []interface{}{al}}
+		if first {
+			tg.Rows = []TRow{{Cells: []TCell{a, b}}, {Cells: []TCell{b, a}}}
+		} else {
+			tg.Rows = []TRow{{Cells: []TCell{b, a}}, {Cells: []TCell{a, b}}}
+		}
+		c.Logf("decoration=%s table=%s", dc.Name, tg)
+		x.Transition(1)
+		x.Nontrivial(dc.Name + tg.String())
+		compareTextTable(x, "C04", tg, dc, []string{"twin_texts", "decoration:" + dc.Name})
+	})
 	texts := []string{"X", "abc", "\x1b[1mX\x1b[0m", "ab\ncde", ""}
 	x.Explore("declared-size", ExploreOpts{ShardDepth: 2, Bound: "5 texts x 6 declared widths x 6 declared heights x 3 positions x 3 alignments x decorations"}, func(c *Chooser) {
 		text := texts[c.Choose(len(texts))]
